@@ -1017,12 +1017,121 @@ def _inside(root: ast.AST, node: ast.AST) -> bool:
     return any(n is node for n in ast.walk(root))
 
 
+# ---------------------------------------------------------------------------------------------------- N6 records introduced to carry results
+def scalar_replace(modname: str, tree: ast.Module) -> List[str]:
+    """A NamedTuple class that the reference tree does not have, used to hand several results of an extracted helper back to its caller:
+    once the helper is inlined, a local that is only ever bound to `K(..)` and only ever read as `local.<field>` is replaced by one local
+    per field (scalar replacement of aggregates).  Field order = evaluation order of the constructor arguments, defaults filled in."""
+    log: List[str] = []
+    classes: Dict[str, List[Tuple[str, Optional[ast.AST]]]] = {}
+    for s in tree.body:
+        if isinstance(s, ast.ClassDef) and any((isinstance(b, ast.Name) and b.id == "NamedTuple") or (isinstance(b, ast.Attribute) and b.attr == "NamedTuple") for b in s.bases) \
+                and f"{modname}.{s.name}" not in REFERENCE_NAMES:
+            fields = [(x.target.id, x.value) for x in s.body if isinstance(x, ast.AnnAssign) and isinstance(x.target, ast.Name)]
+            if fields and not any(isinstance(x, (ast.FunctionDef, ast.AsyncFunctionDef)) for x in s.body):
+                classes[s.name] = fields
+    if not classes:
+        return log
+
+    def ctor_fields(call: ast.AST) -> Optional[List[Tuple[str, ast.AST]]]:
+        if not (isinstance(call, ast.Call) and isinstance(call.func, ast.Name) and call.func.id in classes):
+            return None
+        fields = classes[call.func.id]
+        if any(isinstance(a, ast.Starred) for a in call.args) or any(k.arg is None for k in call.keywords) or len(call.args) > len(fields):
+            return None
+        got: Dict[str, ast.AST] = {}
+        order: List[str] = []
+        for (fname, _d), a in zip(fields, call.args):
+            got[fname] = a
+            order.append(fname)
+        for k in call.keywords:
+            if k.arg in got or k.arg not in dict(fields):
+                return None
+            got[k.arg] = k.value
+            order.append(k.arg)
+        for fname, d in fields:
+            if fname not in got:
+                if d is None or not _literal(d):
+                    return None
+                got[fname] = d
+                order.append(fname)
+        return [(f, got[f]) for f in order]
+
+    # constants: NAME = K(<literals>)
+    consts = {n: v for n, v in _module_single_bindings(modname, tree).items() if ctor_fields(v) is not None and all(_literal(x) for _f, x in ctor_fields(v))}
+    if consts:
+        class C(_Shadow):
+            def visit_Name(self, node):
+                if isinstance(node.ctx, ast.Load) and node.id in consts and self.in_function() and not self.shadowed(node.id):
+                    return ast.copy_location(acopy(consts[node.id]), node)
+                return node
+        C().visit(tree)
+    for fn in list(_fn_nodes(tree)):
+        _with_parents(fn, [])
+        names = {n.id for n in _walk_own(fn) if isinstance(n, ast.Name) and isinstance(n.ctx, ast.Store)}
+        for a in sorted(names):
+            stores = [n for n in _walk_own(fn) if isinstance(n, ast.Name) and n.id == a and isinstance(n.ctx, ast.Store)]
+            loads = [n for n in _walk_own(fn) if isinstance(n, ast.Name) and n.id == a and isinstance(n.ctx, ast.Load)]
+            if not stores or not loads or any(x.arg == a for x in ast.walk(fn.args) if isinstance(x, ast.arg)):
+                continue
+            assigns = []
+            ok = True
+            for st in stores:
+                par = getattr(st, "_np", None)
+                if not (isinstance(par, ast.Assign) and len(par.targets) == 1 and par.targets[0] is st and ctor_fields(par.value) is not None):
+                    ok = False
+                    break
+                assigns.append(par)
+            kinds = {par.value.func.id for par in assigns} if ok else set()
+            if not ok or len(kinds) != 1:
+                continue
+            K = kinds.pop()
+            fnames = [f for f, _ in classes[K]]
+            if not all(isinstance(getattr(n, "_np", None), ast.Attribute) and n._np.value is n and n._np.attr in fnames and isinstance(n._np.ctx, ast.Load) for n in loads):
+                continue
+            all_names = {n.id for n in ast.walk(fn) if isinstance(n, ast.Name)} | {x.arg for x in ast.walk(fn) if isinstance(x, ast.arg)}
+            new_name = {}
+            for f in fnames:
+                cand = f"{a}_{f}"
+                while cand in all_names:
+                    cand += "_"
+                new_name[f] = cand
+                all_names.add(cand)
+            for par in assigns:
+                parts = [ast.copy_location(ast.Assign(targets=[ast.Name(id=new_name[f], ctx=ast.Store())], value=v, lineno=par.lineno), par) for f, v in ctor_fields(par.value)]
+                owner = getattr(par, "_np", None)
+                for fld in ("body", "orelse", "finalbody"):
+                    blk = getattr(owner, fld, None)
+                    if isinstance(blk, list) and par in blk:
+                        i = blk.index(par)
+                        blk[i:i + 1] = parts
+            for n in loads:
+                attr = n._np
+                _replace_child(attr._np, attr, ast.copy_location(ast.Name(id=new_name[attr.attr], ctx=ast.Load()), attr))
+            log.append(f"{modname}.{fn.name}: record local {a} ({K}) replaced by one local per field")
+            _with_parents(fn, [])
+        ast.fix_missing_locations(fn)
+    return log
+
+
 def post_inline(trees: Dict[str, ast.Module]) -> List[str]:
     """after the helper inliner: the temporaries it introduced for arguments / results are folded like any other new local"""
     log: List[str] = []
     for m, t in trees.items():
         if m == "test_factories":
             continue
+        log += scalar_replace(m, t)
+        # constant tests left behind when a helper's flag parameter was bound to a literal
+        before = ast.dump(t)
+        _Fold().visit(t)
+        for n in ast.walk(t):
+            for fld in ("body", "orelse", "finalbody"):
+                b = getattr(n, fld, None)
+                if isinstance(b, list) and b and isinstance(b[0], ast.stmt):
+                    setattr(n, fld, _prune(b) or ([ast.copy_location(ast.Pass(), b[0])] if fld == "body" else []))
+        if ast.dump(t) != before:
+            log.append(f"{m}: constant conditions folded after inlining")
+            ast.fix_missing_locations(t)
         log += local_propagation(m, t, _module_single_bindings(m, t), phase="post")
     return log
 
